@@ -390,6 +390,15 @@ def run(pid, tier, seed, replay=None):
 
     if replay:
         sc = json.load(open(replay))
+        if "wait_case" in sc:
+            import fam_wait
+            wv, wk, _ = fam_wait.run_sub(pid, tier, seed, d, replay_case=sc["wait_case"])
+            for check, c, o in wv:
+                print("VIOLATION property=%s replay=%s check=%s case=%s observed=%s" % (
+                    pid, replay, check, fam_wait.describe(c), "ok at tick %d" % o["rettick"] if o["ok"] else "error: " + o["err"].replace("\n", " | ")))
+            for kf in wk:
+                print("KNOWN-FINDING: property=%s %s" % (pid, kf))
+            return 1 if wv else 0
         scs = [sc]
         tf, _ = vlib.run_scenarios(hv, scs, d, "replay")
         traces = vlib.split_traces(vlib.load_trace(tf))
@@ -580,6 +589,27 @@ def run(pid, tier, seed, replay=None):
         "faults: one injected rejection (HTTP 403 / storage error / wait error) per operation; a crash makes every later call of the process fail",
     ]
     nviol = len(out_viol)
+    # readiness waiting: the real waiters on scripted status sequences (tools/fam_wait.py)
+    if pid in ("C12", "C03", "C02"):
+        import fam_wait
+        wv, wk, wcov = fam_wait.run_sub(pid, tier, seed, d)
+        cov["wait_sub_family"] = wcov
+        for kf, cnt in sorted(wk.items()):
+            print("KNOWN-FINDING: property=%s %s (%d cases of the wait sub-family)" % (pid, kf, cnt))
+        seenw = set()
+        for check, c, o in wv:
+            key = json.dumps(c, sort_keys=True)
+            if key in seenw:
+                continue
+            seenw.add(key)
+            path = os.path.join(viol_dir, "%s_wait_%d.json" % (check, len(seenw)))
+            json.dump({"wait_case": c}, open(path, "w"))
+            if len(seenw) <= 20:
+                print("VIOLATION property=%s replay=%s check=%s case=%s observed=%s" % (
+                    pid, path, check, fam_wait.describe(c), "ok at tick %d" % o["rettick"] if o["ok"] else "error: " + o["err"].replace("\n", " | ")))
+        nviol += len(seenw)
+        assumptions.append("wait sub-family: objects live in client-go's fake dynamic client; statuses are published 250 ms apart; a wait that "
+                           "is expected to end well and reports its own timeout is repeated once, alone and slowly, before it counts")
     if race and (race["races"] or race["panics"]):
         rp = os.path.join(viol_dir, "race_report.txt")
         os.replace(race["report"], rp)
